@@ -555,3 +555,41 @@ def stale_attempt_script(rng, name, which, at, mode="router", dev="tun"):
             ops += probes()
     ops.append("nexpect mesh 1 2")
     return Script(name, ops, {"suite": "node", "noshrink": True})
+
+
+def c15_multi_interval_script(rng, name, combos, own=(3600, "-")):
+    """announcement interval with several peers that were heard from at different times and advertise different timeouts: the smallest advertised
+    timeout decides, whoever it belongs to"""
+    ops = ["nkeys 1", node_line(1, pt=own[0], ka=own[1], key=0, trust=(0,), algos="plain", claims=[])]
+    t = 0
+    for pts in combos:
+        for i, adv in enumerate(pts):
+            t += 1
+            ops.append("ntime %d" % t)
+            ops.append("nfake 1 p%d %d" % (100 + i, adv))
+        t += 1
+        ops += ["ntime %d" % t, "nhk 1", "nfake-clear 1"]
+    return Script(name, ops, {"suite": "node", "noshrink": True})
+
+
+def c15_learned_timeout_script(rng, name, silence_at=12, pt=60):
+    """switch mode: addresses learned from a peer that has no claims; the peer falls silent and is removed by peer timeout (shorter than the switch
+    timeout): its learned routes must go with it, frames for its addresses are flooded again"""
+    ports = [1, 2, 3]
+    ops = mesh(rng, 3, mode="switch", dev="tap", pt=pt)
+    ops += connect_chain(3)
+    t = 0
+    while t < silence_at + pt + 8:
+        t += 1
+        ops.append("ntime %d" % t)
+        for p in ports:
+            ops.append("nhk %d" % p)
+        if t >= silence_at:
+            ops.append("ndropfrom 1")
+        ops += drain(12)
+        if t < silence_at and t % 3 == 0:
+            for a, b in ((1, 2), (1, 3), (2, 1), (3, 1), (2, 3)):
+                ops += ["nframe %d %s" % (a, hx(eth_frame("02000000000%d" % b, "02000000000%d" % a))), "ndeliver 0", "ndeliver 0"]
+        if t > silence_at + pt:
+            ops += ["nframe 2 %s" % hx(eth_frame("020000000001", "020000000002")), "ndeliver 0", "ndeliver 0"]
+    return Script(name, ops, {"suite": "node", "noshrink": True})
